@@ -88,7 +88,7 @@ def body(schema, stats):
 
 def worker(widx, seed, tier, stats):
     n = {'quick': 14, 'thorough': 400}[tier]
-    opts = gen.GenOpts(avoid=common.avoid_set(ID), max_decls=10, alias_focus=4, tail_focus=6)
+    opts = gen.GenOpts(avoid=common.avoid_set(ID), max_decls=10, alias_focus=4, tail_focus=6, block_focus=6)
     runner.run_given(gen.schemas(opts), body, seed, n, stats)
     if opts.avoid and widx < 2:
         runner.run_given(gen.schemas(gen.GenOpts(max_decls=10)), body, seed + 1, 6, stats)
